@@ -149,6 +149,85 @@ def cross_side_rule(F, R):
                    lib.short_name(b["callee"]), b["line"]), fn.loc(b["line"]),
                sample={"receiver_from": "left" if rL and not rR else "right" if rR and not rL else "both/unknown",
                        "key_from": "left" if kL and not kR else "right" if kR and not kL else "both/unknown"})
+    # the same lookups made inside a closure built here (`l.iter().all(|k| r.contains(k))`): the receiver is a captured
+    # variable, the key comes from the iterator the closure is handed to
+    def _side(toks):
+        L, R_ = any(x in tl for x in toks), any(x in tr for x in toks)
+        return "left" if L and not R_ else "right" if R_ and not L else "both/unknown"
+    for i, blk in enumerate(fn.blocks):
+        for e in blk["e"]:
+            if e[0] != "closure_at" or e[2] not in F.fns:
+                continue
+            cl, cf = e[1], F.fns[e[2]]
+            looks = [cb for _, cb in cf.calls()
+                     if re.search(r"::(contains|contains_key|get)$", cb["callee"]) and re.search(r"Hash(Set|Map)", cb["callee"])
+                     and len(cb["args"]) >= 2]
+            if not looks:
+                continue
+            mvs = {}
+            for b2 in cf.blocks:
+                for ev in b2["e"]:
+                    if ev[0] == "mv":
+                        mvs.setdefault(ev[1], set()).add(ev[2])
+            for b2 in cf.blocks:
+                if b2["k"] == "call" and b2.get("dest"):
+                    d = re.match(r"_\d+", b2["dest"])
+                    if d and re.search(r"::(deref|as_ref|borrow|clone)$", b2["callee"]):
+                        mvs.setdefault(d.group(0), set()).update(b2["args"][:1])
+
+            def roots(tok):
+                seen, st, up, arg = set(), [tok], set(), False
+                while st:
+                    x = st.pop()
+                    if x in seen:
+                        continue
+                    seen.add(x)
+                    for src in set(mvs.get(x, ())) | set(mvs.get(x.split(".")[0], ())):
+                        m_ = re.search(r"_1\)?\.(\d+)", src)
+                        if m_:
+                            up.add(int(m_.group(1)))
+                            continue
+                        for t_ in lib.TOK.findall(src):
+                            if t_.split(".")[0] == "_2":
+                                arg = True
+                            st.append(t_)
+                    if x.split(".")[0] == "_2":
+                        arg = True
+                return up, arg
+            # captured variables and the iterator, in the parent
+            cap = {}
+            for ev in blk["e"]:
+                if ev[0] == "mv" and ev[1].startswith(cl + "."):
+                    cap[int(ev[1].split(".")[1])] = set(lib.TOK.findall(ev[2]))
+            users = [cb for _, cb in fn.calls() if any(cl in lib.TOK.findall(a) for a in cb["args"])]
+            iter_toks = set()
+            for cb in users:
+                for a in cb["args"]:
+                    ts = lib.TOK.findall(a)
+                    if cl not in ts:
+                        iter_toks.update(ts)
+            for cb in looks:
+                n += 1
+                sides = []
+                for a in cb["args"][:2]:
+                    up, arg = set(), False
+                    for t_ in lib.TOK.findall(a):
+                        u, g = roots(t_)
+                        up |= u
+                        arg = arg or g
+                    toks = set()
+                    for k in up:
+                        toks |= cap.get(k, set())
+                    if arg:
+                        toks |= iter_toks
+                    sides.append(_side(toks))
+                same_side = sides[0] == sides[1] and sides[0] in ("left", "right")
+                R.inst("C11.c", "%s at equality site #%d (in a closure) looks the key up on the other operand" % (
+                    lib.split_path(cb["callee"])[-1], n), not same_side,
+                       "RecursiveEqualityHandler::visit calls %s (line %s, inside a closure) on the same operand whose elements "
+                       "it is iterating: the test is always true, so any two collections of that kind with the same number of "
+                       "elements compare equal" % (lib.short_name(cb["callee"]), cb["line"]), fn.loc(cb["line"]),
+                       sample={"receiver_from": sides[0], "key_from": sides[1]})
     R.floor("C11.c", "keyed-collection lookups in equality", n, 2)
 
 
